@@ -2,18 +2,26 @@
 Lattice half: harness/corr/c08_lattice.py (GetLattice, post-processing with recorded and adversarial
 LLL answers, subsets logic, Cr50; LLL hit/miss statistics are evidence, never violations).
 Check layer: harness/corr/c02s.py (windows, arguments handed to the solvers, every signature of
-the issuer flagged, other issuers untouched)."""
+the issuer flagged, other issuers untouched).
+Chain (F8): harness/corr/c08_chain.py (real checks on planted bias with lll.reduce recorded inside the
+solver calls: default-w lattice = model, solver answer = solver model on the recorded LLL answer,
+"planted row in the LLL answer => all signatures of the issuer flagged with the key" as a property,
+planted-row statistics)."""
 import corr.c08_lattice as lat
 import corr.c02s as c02s
+import corr.c08_chain as chain
 
 META = dict(
-    trusted_base=lat.META.get('trusted_base', []) + c02s.META.get('trusted_base', []),
-    assumptions=lat.META.get('assumptions', []) + c02s.META.get('assumptions', []))
+    trusted_base=(lat.META.get('trusted_base', []) + c02s.META.get('trusted_base', []) +
+                  chain.META.get('trusted_base', [])),
+    assumptions=(lat.META.get('assumptions', []) + c02s.META.get('assumptions', []) +
+                 chain.META.get('assumptions', [])))
 
 
 def correspondence(rep, rng, tier):
   lat.correspondence(rep, rng, tier)
   c02s.correspondence_sigs(rep, rng, tier)
+  chain.correspondence(rep, rng, tier)
 
 
 def search(rep, rng, tier):
